@@ -619,6 +619,25 @@ func run(env *simrt.Env, sci interface{}) {
 			}
 		}
 	}
+	// A read that fails with a timeout takes nothing: when a read is still waiting at quiescence
+	// (no deadline in force any more), every datagram written has been returned by some read
+	if sc.Conn != "bridge" {
+		waiting, nWrites := -1, 0
+		for i, r := range reads {
+			if r != nil && !r.done {
+				waiting = i
+			}
+		}
+		for _, o := range sc.Writes {
+			if !o.Foreign {
+				nWrites++
+			}
+		}
+		if waiting >= 0 && nData < nWrites {
+			env.Fail("C10/datagram-taken-by-failed-read", "%s: %d datagrams were written and only %d reads returned one, yet read #%d is still waiting for data at quiescence: a read that failed with a timeout must have consumed a datagram", sc.Conn, nWrites, nData, waiting)
+			return
+		}
+	}
 	if sc.Interrupt > 0 && sc.Conn != "bridge" {
 		// The interrupt idiom. The system is quiescent, so a read that has not returned is parked
 		// inside the read, waiting. Its deadline now passes (set to the past): the read is released
